@@ -35,7 +35,7 @@ PROPS = {
               " Also: QUEUE_FULL is reported only from a handler that catches nothing but the queue's Full; the two callback tables are written only by the drain, the handler, the apply step and the leader-change sweep (a local alias of a table is recognised, rebinding it is not a reset).",
               ['that a SUCCESS-reported command is never undone later (global, see C04)', 'timeouts'],
               'linear typestate by event counting over path-sensitive CFG exploration, guard entailment, def-use'),
-    'C03': _p(['R-vote-grant', 'R-term-vote-writes', 'R-majority', 'R-leader-entry', 'R-step-down', 'R-leader-append-position', 'R-match-writes', 'R-tally-reset', 'R-owners-election', 'L-undefined-name'],
+    'C03': _p(['R-vote-grant', 'R-term-vote-writes', 'R-majority', 'R-leader-entry', 'R-step-down', 'R-leader-append-position', 'R-match-writes', 'R-tally-reset', 'R-owners-election', 'L-undefined-name', 'R-state-before-notify'],
               'the five Raft vote-grant conditions are entailed at the grant; term only grows and the vote is reset only with a term change; every majority '
               'test is a strict majority of voters+self over the voter set; LEADER is entered only behind a majority test as CANDIDATE of the current term; '
               'newer terms / accepted append_entries lead to FOLLOWER.'
@@ -87,7 +87,7 @@ PROPS = {
               ['quorum-overlap safety under interleavings (follows from the gate + C03/C04 by a paper argument)', 'operator discipline clauses'],
               'dead-guard / def-use analysis, path-sensitive reachability with obligation nodes removed, effect multiset per path',
               thorough_rules=['L-dead-guard']),
-    'C11': _p(['R-chunk-length', 'R-chunk-kinds', 'R-cmd-shapes', 'R-wire-schema', 'R-bounded-write', 'R-read-ungated', 'L-undefined-name'],
+    'C11': _p(['R-chunk-length', 'R-chunk-kinds', 'R-cmd-shapes', 'R-wire-schema', 'R-bounded-write', 'R-read-ungated', 'L-undefined-name', 'R-owners-chunk-buffer'],
               'the chunk classifier uses the length of the sliced sequence and yields start, process*, finish for every size; sender kinds = receiver kinds with the right buffer effect '
               'per kind; command pack/unpack shapes agree and reserved keywords are removed before pickling; every key the handler reads is written by every consistent sender; journal write bounded.'
               ' Also: socket reads are never gated on the amount already buffered (a frame may exceed any buffer size); every first / middle chunk is acknowledged before the handler returns.',
@@ -110,13 +110,13 @@ PROPS = {
               ' Also: a lost connection is attributed to a member only by comparing the registry entries with the connection object; CONNECTED is entered only behind a clear SO_ERROR; CONNECTING is never left behind without a poller subscription; retry and silence intervals are measured on the monotonic clock.',
               ['reconnection within bounded time', 'half-open connection handling', 'accuracy of connect/disconnect notifications under fault sequences'],
               'must-fact guard entailment, effect multiset per path'),
-    'C15': _p(['R-delegate-agree', 'R-counter-ops', 'R-queue-bound', 'R-consumer-state', 'R-cmd-shapes', 'R-none-is-a-value', 'R-heap-discipline', 'L-undefined-name', 'R-consumer-payload'],
+    'C15': _p(['R-delegate-agree', 'R-counter-ops', 'R-queue-bound', 'R-consumer-state', 'R-cmd-shapes', 'R-none-is-a-value', 'R-heap-discipline', 'L-undefined-name', 'R-consumer-payload', 'R-reset-replaces'],
               'every delegating battery method agrees with the builtin it forwards to (operation, parameter order, defaults, returned value; documented deviations tabled); counter arithmetic; '
               'bounded queues insert only below the bound, report acceptance truthfully, remove in queue order; battery state is created where it gets serialised.'
               ' Also: no wrapper decides absence of a key from a None lookup result (None is a value); a wrapper named like a builtin operation passes every parameter to it.',
               ['behavioural equivalence over operation sequences for the non-delegating methods', 'equality of replicas'],
               'signature-table agreement (cross-checked with inspect.signature of builtins), guard entailment'),
-    'C16': _p(['R-lock-guards', 'R-expiry-partition', 'R-late-acquire', 'L-undefined-name', 'L-none-call'],
+    'C16': _p(['R-lock-guards', 'R-expiry-partition', 'R-late-acquire', 'L-undefined-name', 'L-none-call', 'R-lock-client-identity'],
               'lock table transitions happen only under their guards; holder view and taker views of expiry are disjoint over (d<U, d=U, d>U); both acquisition paths apply the same '
               'late-acquire test, report failure and release; prolongation period at most half the auto-unlock time.'
               ' Also: after the "too late" test every path releases the lock and reports False, and both ends of the elapsed time come from the same clock; isAcquired is analysed also when written as one boolean return.',
@@ -141,7 +141,7 @@ PROPS = {
               ' Also: a forwarded call cannot be left waiting for ever by a leader change (the waiting-reply table is swept before another leader is adopted).',
               ['exactly-once application under all thread interleavings (C02 global part)'],
               'ownership/effect analysis with two thread roots, lock-scope check, CFG dominance'),
-    'C20': _p(['R-fallback-every-tick', 'R-response-time-writes', 'R-hasquorum', 'R-majority', 'R-owners-liveness', 'L-undefined-name'],
+    'C20': _p(['R-fallback-every-tick', 'R-response-time-writes', 'R-hasquorum', 'R-majority', 'R-owners-liveness', 'L-undefined-name', 'R-state-before-notify'],
               'a leader reaches the fallback test on every tick; responders counted iff they answered within leaderFallbackTimeout over the voter set; failing arm => FOLLOWER and no leader; '
               'response times refreshed only by replies received as leader; hasQuorum equals strict majority of connected voters (+self) for n=0..8.'
               ' Also: a connection event never refreshes the response table; a voter without an entry never counts as recent; the table has fixed owners; a majority threshold kept in an attribute is recomputed wherever the voter set changes.',
